@@ -61,6 +61,7 @@ type GraphSpec struct {
 	InSet      bool // items in a named set (unused members allowed) instead of direct Build arguments
 	Inline     bool // items in an inline wire.NewSet(...) argument of wire.Build
 	PerNode    bool // each node's items in a named set of their own: wire.Build(Set0, Set1, ...)
+	ParamNames int  // injector parameter names: 0 arg<i>, 1 blank (_), 2 unnamed parameter list
 	BindOuter  bool // InSet: the bindings are not in the set with their providers but in a wrapper set: Outer = NewSet(Set, binds...)
 	InlineWrap bool // PerNode: each per-node set reference is wrapped in an inline wire.NewSet(...)
 	Depth      int  // InSet: wrap the named set in this many further named sets (Set <- Outer1 <- Outer2 ...)
@@ -201,7 +202,14 @@ func (g *GraphSpec) Build() (*ir.Program, []*ir.Type) {
 				items = append(items, ir.ValueItem(t, 9000+i))
 			}
 		case NParam:
-			params = append(params, ir.Param{Name: fmt.Sprintf("arg%d", i), T: types[i]})
+			pn := fmt.Sprintf("arg%d", i)
+			switch g.ParamNames {
+			case 1:
+				pn = "_"
+			case 2:
+				pn = "-"
+			}
+			params = append(params, ir.Param{Name: pn, T: types[i]})
 		}
 		if g.Split && nd.Lib && nd.Kind != NParam {
 			items2 = append(items2, items[start:]...)
